@@ -89,4 +89,47 @@ impl<BS: Blockstore, K, V> Map2<BS, K, V> {
     { unimplemented!() }
 }
 
+
+// ---- fvm_ipld_amt::Amt as used through fil_actors_runtime::Array: a finite map from u64 ----------------
+#[verifier::external_body]
+#[verifier::accept_recursive_types(BS)]
+#[verifier::reject_recursive_types(V)]
+pub struct Array<V, BS> { p: PhantomData<(V, BS)> }
+pub uninterp spec fn array_decode<V>(c: Cid) -> Map<u64, V>;
+
+impl<V, BS: Blockstore> Array<V, BS> {
+    pub uninterp spec fn view(&self) -> Map<u64, V>;
+
+    #[verifier::external_body]
+    pub fn load(root: &Cid, store: BS) -> (r: Result<Self, AnyhowError>)
+        ensures r.is_ok() ==> r->Ok_0.view() == array_decode::<V>(*root),
+    { unimplemented!() }
+    #[verifier::external_body]
+    pub fn get(&self, i: u64) -> (r: Result<Option<&V>, AnyhowError>)
+        ensures
+            r.is_ok() ==> (r->Ok_0.is_some() <==> self.view().dom().contains(i)),
+            r.is_ok() && r->Ok_0.is_some() ==> *(r->Ok_0->Some_0) == self.view()[i],
+    { unimplemented!() }
+    #[verifier::external_body]
+    pub fn set(&mut self, i: u64, v: V) -> (r: Result<(), AnyhowError>)
+        ensures
+            r.is_ok() ==> final(self).view() == old(self).view().insert(i, v),
+            r.is_err() ==> final(self).view() == old(self).view(),
+    { unimplemented!() }
+    #[verifier::external_body]
+    pub fn delete(&mut self, i: u64) -> (r: Result<Option<V>, AnyhowError>)
+        ensures
+            r.is_ok() ==> final(self).view() == old(self).view().remove(i),
+            r.is_ok() ==> (r->Ok_0.is_some() <==> old(self).view().dom().contains(i)),
+            r.is_ok() && r->Ok_0.is_some() ==> r->Ok_0->Some_0 == old(self).view()[i],
+            r.is_err() ==> final(self).view() == old(self).view(),
+    { unimplemented!() }
+    #[verifier::external_body]
+    pub fn flush(&mut self) -> (r: Result<Cid, AnyhowError>)
+        ensures
+            final(self).view() == old(self).view(),
+            r.is_ok() ==> array_decode::<V>(r->Ok_0) == old(self).view(),
+    { unimplemented!() }
+}
+
 } // verus!
